@@ -42,6 +42,8 @@ func runSolve(b block) {
 			}
 		case "user":
 			userDefs = append(userDefs, fs)
+		case "usol":
+			userSolDefs = append(userSolDefs, fs)
 		case "build":
 			resNames = fs[1:]
 		case "solve":
